@@ -114,6 +114,18 @@ func hostileBytes(c *fw.Ctx, scale int, emit emitFn) {
 			emit("model-mutant", projectJob(id("mm"), q, false))
 		}
 	}
+	// long runs of one byte value around the limits of the error quote (197..202 bytes) and far beyond, as a whole file, as a line
+	// after a valid prologue, inside a parameter and in an included file
+	for _, bv := range []byte{0x80, 0xBF, 0xC3, 0xE2, 0xF0, 0xFF, 0x01, ' ', '\t', 'a', '"', '(', '#', '/', '{', '@'} {
+		for _, n := range []int{197, 198, 199, 200, 201, 202, 203, 250, 400, 1000, 5000} {
+			run := strings.Repeat(string([]byte{bv}), n)
+			emit("long-run", singleJob(id("run"), []byte(run), false))
+			emit("long-run", singleJob(id("run"), []byte("JSIGHT 0.3\n"+run+"\n"), false))
+			emit("long-run", singleJob(id("run"), []byte("JSIGHT 0.3\nGET /"+run+"\n  200 any\n"), false))
+			emit("long-run", singleJob(id("run"), []byte("JSIGHT 0.3\nTYPE @t // "+run+"\n"+run), false))
+			emit("long-run", &proto.Job{ID: id("run"), Root: "root.jst", Files: map[string][]byte{"root.jst": []byte("JSIGHT 0.3\nINCLUDE p.jst\n"), "p.jst": []byte("TYPE @a any\n" + run + "\n")}})
+		}
+	}
 	// dictionary strings
 	for i := 0; i < 8000*scale; i++ {
 		var sb strings.Builder
